@@ -47,33 +47,35 @@ impl<C: Cursor> Cursor for ConcatenatingCursor<C> {
             key,
             timestamp: u64::MAX,
         };
+        // Binary search for the first cursor whose last key is at or after `key`.  An empty
+        // cursor, or one whose keys are all less than `key`, cannot hold the answer.
         let mut left = 0usize;
         let mut right = self.cursors.len() - 1;
-
         while left < right {
-            let mut mid = (left + right) / 2;
+            let mid = (left + right) / 2;
             self.reposition(mid)?;
             self.cursors[self.position].seek_to_last()?;
             self.cursors[self.position].prev()?;
-            while mid > left && self.cursors[self.position].key().is_none() {
-                mid -= 1;
-                self.reposition(mid)?;
-                self.cursors[self.position].seek_to_last()?;
-                self.cursors[self.position].prev()?;
-            }
-            if mid == left {
-                break;
-            }
-            // SAFETY(rescrv):  We have a loop invariant above that goes until is_some or the
-            // conditional right above us.
-            if self.cursors[self.position].key().unwrap() >= kref {
-                right = mid;
-            } else {
-                left = mid + 1;
+            match self.cursors[self.position].key() {
+                Some(last) if last >= kref => {
+                    right = mid;
+                }
+                _ => {
+                    left = mid + 1;
+                }
             }
         }
         self.reposition(left)?;
-        self.cursors[self.position].seek(key)
+        self.cursors[self.position].seek(key)?;
+        // If nothing in this cursor is at or after `key`, the answer is the first entry of a later
+        // cursor.
+        while self.cursors[self.position].key().is_none() && self.position + 1 < self.cursors.len()
+        {
+            self.reposition(self.position + 1)?;
+            self.cursors[self.position].seek_to_first()?;
+            self.cursors[self.position].next()?;
+        }
+        Ok(())
     }
 
     fn prev(&mut self) -> Result<(), SError> {
